@@ -108,7 +108,10 @@ SCOPES = {
     "C02": lambda t: t.fn.name != "occurs" and "/typer/" not in t.fn.file,
     "C03": lambda t: "/go/" not in t.fn.file,
     "C04": lambda t: t.fn.name == "occurs",
-    "C20": lambda t: t.fn.file.endswith("typer/unify.rs"),
+    # what a query answers with: the solver's substitution and the table of recorded types hover reads
+    "C20": lambda t: t.fn.file.endswith(("typer/unify.rs", "typer/results.rs")),
+    # what is computed again when an artifact is written or read back: only the separate pipeline runs it
+    "C14": lambda t: t.fn.file.endswith(("/core.rs", "/artifact.rs", "/hir.rs")) or "/pipeline/" in t.fn.file,
     # what instantiates `Self` in a trait method's signature, and what resolves a receiver's type
     "C17": lambda t: "/typer/" in t.fn.file,
 }
@@ -185,7 +188,7 @@ def r07_2(run, model, only_file=None, scope=None):
         run.floor(f"structural Ty traversals in {only_file}", n, 1)
         return
     if scope is not None and scope != "C07":
-        run.floor(f"structural Ty traversals in the scope of {scope}", n, {"C04": 1, "C20": 3, "C17": 12}.get(scope, 8))
+        run.floor(f"structural Ty traversals in the scope of {scope}", n, {"C04": 1, "C20": 3, "C17": 12, "C14": 0}.get(scope, 8))
         return
     run.floor("structural Ty traversals", n, 18)
     for rel, name in ANCHOR_TRAVERSALS:
